@@ -1,4 +1,5 @@
 import NunavutVerif.Model.LexerFull
+import NunavutVerif.Model.Autoindent
 import NunavutVerif.Gen.LexerTables
 import NunavutVerif.Proto
 /-!
@@ -24,6 +25,15 @@ Driver for the C19 correspondence.  One request per line (strings are '.'-separa
   `ptok <env> <ls> <lc> <keep> <seq> <src>`   → `wrap(tokeniter)`: `<lineno> <type> <value> <0|1 parser wraps>` | error as above
                                                  env: `<S|B|O><lstrip><trim>` e.g. `B01`; ls / lc: line statement / comment
                                                  prefix or `~` (None); seq = newline_sequence
+  `tree <env> <ls> <lc> <keep> <seq> <src>`   → lexer → tags → `Parser.subparse`: `ok <nodes>` | `err eof` | `err unknown <name>` |
+                                                 `err fuel` | `none` (lexer error / open tag); nodes joined by `,`:
+                                                 `t:<s>` `e:<expr>` `E:<prefix>:<expr>` `s:<name>:<arg>` `S:<name>:<arg>[<body>][<else>]` `B:<prefix>[<body>]`
+  `render <env> <ls> <lc> <keep> <seq> <src> <exprs> <conds> <counts> <simples>` → `ok <text>` | `none`
+                                                 valuations: `-` or comma lists `<key>=<text>`, `<key>=<0|1>`, `<key>=<n>`, `<name>/<arg>=<text>`
+
+  `assertat <0|1> <msg|~> <lineno> <name>`    → `ok <str>` | `err assertion <msg> <lineno> <name>`
+  `qv <q> <0|1> <N|O|S:<name>>`               → `ok <0|1>` | `err undefined <name>` | `err unknown-query-name` | `err type`
+  `builder <trim> <lstrip>`                   → the lexer settings of `CodeGenEnvironmentBuilder` in that state, space separated
 
 cfg: `S0` `S1` (upstream, lstrip off/on), `B0` `B1` (bundled, repaired), `O0` `O1` (bundled before the fix).
 -/
@@ -89,6 +99,8 @@ def showRes : Except Err Str → String
   | .error (.assertion m) => s!"err assertion {encodeStr m}"
   | .error (.undefinedQuery n) => s!"err undefined {encodeStr n}"
   | .error .syntax => "err syntax"
+  | .error .unknownQueryName => "err unknown-query-name"
+  | .error .typeError => "err type"
 
 
 /-! ### whole-lexer ops -/
@@ -158,8 +170,65 @@ def answerFull (line : String) : Option String :=
     | _, _, _, _ => none
   | _ => none
 
+/-! ### subparse / render ops -/
+
+mutual
+def showNode : Node → String
+  | .text s => s!"t:{encodeStr s}"
+  | .expr e => s!"e:{encodeStr e}"
+  | .exprWrapped p e => s!"E:{encodeStr p}:{encodeStr e}"
+  | .stmt n a b alt => s!"S:{encodeStr n}:{encodeStr a}[{showNodes b}][{showNodes alt}]"
+  | .simple n a => s!"s:{encodeStr n}:{encodeStr a}"
+  | .blockWrapped p b => s!"B:{encodeStr p}[{showNodes b}]"
+def showNodes : List Node → String
+  | [] => ""
+  | [n] => showNode n
+  | n :: m :: ns => showNode n ++ "," ++ showNodes (m :: ns)
+end
+
+def parsePairs (s : String) : Option (List (String × String)) :=
+  if s = "-" then some [] else
+  (splitOnChar s ',').mapM fun t =>
+    match t.splitOn "=" with
+    | [a, b] => some (a, b)
+    | _ => none
+
+def lookupStr (tab : List (String × String)) (key : String) : Option String := tab.lookup key
+
+def mkVal (exprs conds counts simples : List (String × String)) : Val where
+  expr e := match lookupStr exprs (encodeStr e) with | some v => (decodeStr v).getD [] | none => []
+  cond c := match lookupStr conds (encodeStr c) with | some v => v = "1" | none => false
+  count c := match lookupStr counts (encodeStr c) with | some v => v.toNat?.getD 0 | none => 0
+  simple n a := match lookupStr simples (encodeStr n ++ "/" ++ encodeStr a) with | some v => (decodeStr v).getD [] | none => []
+
+def answerParse (line : String) : Option String :=
+  match line.splitOn " " with
+  | ["tree", env, ls, lc, keep, seq, src] =>
+    match parseEnv env ls lc, parseBool keep, decodeStr seq, decodeStr src with
+    | some e, some keep, some seq, some src =>
+      match groupItems none (tokenize e realTables keep seq src) with
+      | none => some "none"
+      | some items =>
+        match parseItems coreStmts items with
+        | .ok ns => some s!"ok {showNodes ns}"
+        | .error .unexpectedEof => some "err eof"
+        | .error (.unknownTag n) => some s!"err unknown {encodeStr n}"
+        | .error .outOfFuel => some "err fuel"
+    | _, _, _, _ => none
+  | ["render", env, ls, lc, keep, seq, src, ex, co, cn, si] =>
+    match parseEnv env ls lc, parseBool keep, decodeStr seq, decodeStr src, parsePairs ex, parsePairs co, parsePairs cn, parsePairs si with
+    | some e, some keep, some seq, some src, some ex, some co, some cn, some si =>
+      match renderTemplate e realTables coreStmts (mkVal ex co cn si) keep seq src with
+      | some out => some s!"ok {encodeStr out}"
+      | none => some "none"
+    | _, _, _, _, _, _, _, _ => none
+  | _ => none
+
 def answer (line : String) : String :=
   match answerFull line with
+  | some a => a
+  | none =>
+  match answerParse line with
   | some a => a
   | none =>
   match line.splitOn " " with
@@ -211,6 +280,31 @@ def answer (line : String) : String :=
       | .ok node => showRes (evalIf (fun x => q.lookup x) node)
       | .error e => showRes (.error e)
     | _, _, _, _, _ => "bad-op"
+  | ["assertat", t, m, l, n] =>
+    match parseBool t, parseOptStr m, l.toNat?, decodeStr n with
+    | some t, some m, some l, some n =>
+      match doAssertAt t m l n with
+      | .ok s => s!"ok {encodeStr s}"
+      | .error f => s!"err assertion {encodeStr f.msg} {f.lineno} {encodeStr f.name}"
+    | _, _, _, _ => "bad-op"
+  | ["qv", q, ng, n] =>
+    let qn : Option QName :=
+      if n = "N" then some .none_ else if n = "O" then some .other
+      else if n.startsWith "S:" then (decodeStr (n.drop 2).toString).map QName.str else none
+    match parseQ q, parseBool ng, qn with
+    | some q, some ng, some qn =>
+      match useQueryV (fun x => q.lookup x) ng qn with
+      | .ok b => if b then "ok 1" else "ok 0"
+      | .error e => showRes (.error e)
+    | _, _, _ => "bad-op"
+  | ["builder", t, l] =>
+    match parseBool t, parseBool l with
+    | some t, some l =>
+      let s := builderSettings ⟨t, l⟩
+      let o (x : Option Str) := match x with | some v => encodeStr v | none => "~"
+      let b (x : Bool) := if x then "1" else "0"
+      s!"{encodeStr s.blockStart} {encodeStr s.blockEnd} {encodeStr s.variableStart} {encodeStr s.variableEnd} {encodeStr s.commentStart} {encodeStr s.commentEnd} {o s.lineStatementPrefix} {o s.lineCommentPrefix} {b s.trimBlocks} {b s.lstripBlocks} {encodeStr s.newlineSequence} {b s.keepTrailingNewline}"
+    | _, _ => "bad-op"
   | _ => "bad-op"
 
 def main : IO Unit := serve answer
